@@ -43,6 +43,41 @@ CLAIMED["C12"] = dict(
     ),
 )
 
+CLAIMED["C03"] = dict(
+    category="exploration",
+    design_ref="DESIGN.md section 4 (C03), 3.4, 3.6",
+    technique="deterministic simulation: every driver of the factories run under a simulated clock with injected NaN/raising callables, clock jumps, budgets and repeated executions; history oracles on database, call log and result",
+    text=(
+        "Seeded search over (algorithm x problem x settings x budget x fault plan): each run executes a real optimisation or DOE wrapper 1-3 times on a "
+        "harness problem whose callables advance a simulated clock and fail on a tape-chosen call (NaN, ValueError in DOEs, clock jump), with max_time read "
+        "from that clock. Checked per execution: a result is returned (no exception) when budget, tolerance, time limit or NaN stops the run; new database "
+        "entries <= N; distinct non-probe points seen by the original callables <= N and all recorded; DOE samples evaluated once and recorded in generation "
+        "order. Exploration: evidence lists fired faults, stop causes reached and distinct configurations."
+    ),
+    note=(
+        "Composite algorithms (MultiStart, augmented Lagrangian) are only held to 'returns a result' and run with user derivatives; MNBI, OT_SOBOL_INDICES, "
+        "MorrisDOE and OATDOE are not in the workload. Promptness of the time limit is not asserted. Runs in which a third-party optimiser loops forever at "
+        "already recorded points are cut by a CPU-time guard and counted as inconclusive (reach probe endless_loop_at_recorded_points). NLOPT_BFGS is not "
+        "given NaN faults (NLopt is nondeterministic after a callback raised)."
+    ),
+)
+CLAIMED["C04"] = dict(
+    category="exploration",
+    design_ref="DESIGN.md section 4 (C04)",
+    technique="deterministic simulation: selection-rule oracle re-implemented from the documentation, evaluated as a run-time invariant (after every stored value) and on every result of fault-injected driver runs",
+    text=(
+        "The histories are those that faults, budgets, time limits and repeated executions produce in real driver runs (partially evaluated points after a "
+        "raising constraint, recorded NaN values, only-infeasible histories, ties from repeated points, maximisation). After every stored value and on each "
+        "returned result an independent re-implementation of the documented rule checks: reported point recorded; feasible and not worse than any feasible "
+        "recorded objective when a feasible point exists; otherwise flagged infeasible with minimal violation measure among fully evaluated points; reported "
+        "objective/constraints/gradients/index are those recorded for that point."
+    ),
+    note=(
+        "Pareto/multi-objective clause not decided (pure function of a finished history, no simulated dimension). LP/MILP wrappers excluded from the selection "
+        "oracle (they report the solver's own solution by design). Histories are produced by runs, not enumerated: shapes that no driver run produces are not reached."
+    ),
+)
+
 NOT_APPLICABLE = {
     "C02": "in-memory data structure driven by one caller: no schedule, clock, I/O or fault for a simulator to own; a history of edits is an input to a deterministic function (model-based property testing, another technique)",
     "C06": "deterministic numerics: the result is a function of the coupled system and settings; the only schedule-dependent part (parallel Jacobi) is decided under C13",
